@@ -6,6 +6,6 @@ theorem sm_format_iso2 (p : StrOrBytes) : Gen.sm.format_iso9564_2_pin_block p = 
   unfold Gen.sm.format_iso9564_2_pin_block formatIso2PinBlock
   simp only [rep_flatten, bind, Except.bind, pure, Except.pure]
   repeat (first | rfl | split)
-  all_goals simp_all
+  all_goals first | (simp_all; done) | slice_forms
 
 end Pyemv.ModRefines
